@@ -268,6 +268,39 @@ Proof.
     exact (walks_cert_sound h (write_back h lvl g1') ha strict (LoopPath2.Fu (ua_v a) bv) Hthm Hc).
 Qed.
 
+Theorem uni_col_sound_c h ha lvl loop headers entries exiting exits doms bnames vnames strict :
+  uni_col_of h ha lvl loop headers entries exiting exits doms bnames vnames = 4 ->
+  exists v bv, forall n e e' ds,
+    (exists b p, find h n = Some b /\ n_kind b = KOrig p) -> E (LoopPath2.Fu v bv) e e' ->
+    CTrace h (resolve_flat h) strict n e ds -> CTrace ha (resolve_flat ha) strict n e' ds.
+Proof.
+  unfold uni_col_of. destruct (negb (forallb (leafb h) entries)); [discriminate|].
+  destruct (level_graph h lvl) as [g0|] eqn:Hlg; [|discriminate].
+  destruct (uni_step1 g0 loop headers entries bnames vnames) as [a|] eqn:Hs1; [|discriminate]. cbv zeta.
+  destruct (is_early (backedge_blocks_of (ua_g1 a) (ua_loop1 a) headers) exiting) as [bb|].
+  - destruct (insert_cb_h h lvl (ua_H a) (ua_v a) entries headers (ua_names_cb a)) as [hA| |]; try discriminate.
+    destruct (walk_pre_cbh h lvl (ua_H a) (ua_v a) entries headers (ua_names_cb a) && orig_keptb h hA); [|discriminate].
+    destruct (level_graph hA lvl) as [gA|]; [|discriminate]. destruct (Z.eqb (early_col hA ha lvl gA (ua_H a) bb) 3); discriminate.
+  - destruct (ua_bn a) as [|latch bn1]; [discriminate|].
+    destruct (if match exits with _ :: _ :: _ => true | _ => false end
+              then match bn1 with s :: r => (s, r) | [] => (0, []) end else (0, bn1)) as [sexit bn2].
+    destruct (ua_vn a) as [|bv vr]; [discriminate|].
+    destruct (head_tbl (ua_g1 a) (ua_H a) (ua_v a) headers) as [tbl|] eqn:Htbl; [|discriminate].
+    match goal with |- context [walk_pre_uni h lvl TOP (ua_H a) (ua_v a) entries headers (ua_names_cb a) exits ?todo ?isback latch sexit bv bn2] =>
+      set (td := todo); set (ib := isback) end.
+    destruct (walk_pre_uni h lvl TOP (ua_H a) (ua_v a) entries headers (ua_names_cb a) exits td ib latch sexit bv bn2) eqn:Hpre; [|discriminate].
+    destruct (loop_rotate (ua_g1 a) (ua_H a) headers exits td true tbl ib latch sexit (ua_v a) bv bn2) as [g1'| |] eqn:Hrot; try discriminate.
+    destruct (walks_cert h (write_back h lvl g1') ha) eqn:Hc; [|discriminate]. intros _.
+    exists (ua_v a), bv.
+    destruct (unified_rotation_h_keeps_ctrace_b h lvl TOP (ua_H a) (ua_v a) entries headers (ua_names_cb a) exits td ib latch sexit bv bn2 strict Hpre)
+      as [nl [g0' [g1 [tbl' [g1'' [Hl [HLG [Hcb [Htbl' [Hrot' Hthm]]]]]]]]]].
+    (* the dictionaries the theorem speaks about are the ones computed here *)
+    assert (E0 : g0' = g0) by (unfold level_graph in Hlg; rewrite Hl, HLG in Hlg; congruence). subst g0'.
+    rewrite (uni_step1_spec _ _ _ _ _ _ _ Hs1) in Hcb. injection Hcb as <-.
+    rewrite Htbl in Htbl'. injection Htbl' as <-. rewrite Hrot in Hrot'. injection Hrot' as <-.
+    exact (ctrace_cert_sound h (write_back h lvl g1') ha strict (LoopPath2.Fu (ua_v a) bv) Hthm Hc).
+Qed.
+
 Lemma uni_col_cases h ha lvl loop headers entries exiting exits doms bnames vnames :
   let c := uni_col_of h ha lvl loop headers entries exiting exits doms bnames vnames in
   c = 2 \/ c = 4 \/ c = 5 \/ c = 6.
